@@ -47,6 +47,19 @@ impl Gen {
         v
     }
 
+    /// `settle <child> <parent>` for a CA that (as far as the generator knows) is still a child of
+    /// another CA - the convergence oracle of C02 needs the parent's aggregate (not the TA proxy).
+    pub fn settle_op(&self) -> Option<String> {
+        for c in self.cas.iter().rev() {
+            for (p, _) in &c.parents {
+                if p != "ta" && self.cas.iter().any(|x| &x.name == p && x.children.contains(&c.name)) {
+                    return Some(format!("settle {} {p}", c.name));
+                }
+            }
+        }
+        None
+    }
+
     /// The set-up ops: 2–4 CAs, depth ≤ 3, sometimes a second parent.
     pub fn setup(&mut self) -> Vec<String> {
         let mut ops = vec![];
